@@ -28,7 +28,7 @@ ASSUMPTIONS = [
     "helper twins are not compared for mode/count_unique when missing values are kept (drop_na=False), see C07",
 ]
 REACH = {"quick": {"op:aggregate": 2000, "op:count": 500, "op:split": 500, "op:modify": 500, "na-key": 1000, "multi-col": 1000,
-                   "twin-compared": 1000, "tag:float_hostile": 100, "after-inplace-edit": 500, "tag:big": 8}}
+                   "twin-compared": 1000, "tag:float_hostile": 100, "after-inplace-edit": 500, "tag:big": 4}}
 
 GKINDS = ["int", "str", "float", "bool", "date", "datetime", "lstr", "ustr", "obool", "float", "str", "timedelta", "uint64", "int", "int_be", "datetime_be", "float_be", "oint"]
 HELPERS = [("all", {}), ("any", {}), ("count", {}), ("count", {"drop_na": True}), ("count_unique", {}), ("count_unique", {"drop_na": True}),
